@@ -89,7 +89,11 @@ def fields():
         # a value crossing the one-byte attribute length, written with and without the extended-length flag
         (f'attribute [ 0x63 {fl:#x} 0x{"ab" * n} ]', True, {'attrs': {'generic': [0x63, fl, 'ab' * n]}}) for n in (255, 256, 300, 1000) for fl in (0xC0, 0xD0, 0xE0)
     ]  # fmt: skip
-    f['split'] = [('split /25', True, {'split': 25}), ('split /33', None, None), ('split /24', None, None), ('split /8', None, None), ('split banana', False, None)]
+    f['split'] = [('split /25', True, {'split': 25}), ('split /33', None, None), ('split /24', None, None), ('split /8', None, None), ('split banana', False, None),
+                  # splitting a labelled or a VPN route: every piece keeps the label and the route distinguisher
+                  ('label [ 100 ] split /25', True, {'fam': 'v4l', 'labels': [100], 'split': 25}),
+                  ('rd 65000:1 label [ 100 ] split /25', True, {'fam': 'v4vpn', 'rd': '65000:1', 'labels': [100], 'split': 25}),
+                  ('rd 65000:1 label [ 100 ] split /26', True, {'fam': 'v4vpn', 'rd': '65000:1', 'labels': [100], 'split': 26})]  # fmt: skip
     f['keyword'] = [('frobnicate 12', False, None), ('med', False, None), ('', True, {})]
     return f
 
@@ -266,7 +270,10 @@ def definition(cell, n: int):
         if name in ('med',):
             text = f'route 10.77.{n}.0/24 next-hop 10.0.0.9 {tok}'
         if nested:
-            text = f'route 10.77.{n}.0/24 {{ next-hop 10.0.0.9; med {1000 + n}; ' + ' '.join(t + ';' for t in toks if t) + ' }'
+            stmts = ['next-hop 10.0.0.9', f'med {1000 + n}'] + [t for t in toks if t]
+            if n % 2:
+                stmts = stmts[1:] + stmts[:1]  # the statements of a block come in any order: here the next hop is written last
+            text = f'route 10.77.{n}.0/24 {{ ' + ' '.join(t + ';' for t in stmts) + ' }'
     r = None
     if over is not None:
         r = jclone(base)
